@@ -21,17 +21,17 @@ NA = {
 CHECKS = {
  'C05': dict(
    technique='deterministic simulation: per-transition refinement of the four simulator cores against an executable reference Z80 (RefZ80) during simulated machine runs',
-   text='Seeded exploration: every dispatch slot of every engine is executed from generated states (boundary-biased) and inside generated programs with scheduler-chosen interrupts; each executed transition must match RefZ80 on registers, documented flags, memory writes, port events and T-states. The first scenarios of every batch execute every entry of every 8-bit flag/result table on every engine (17 M executions per quick run); 16-bit and memory-addressed forms are sampled with boundary bias. Sampling of operand spaces, not proof; no fault dimension exists for a single instruction (see DESIGN.md 5/C05).',
+   text='Seeded exploration: every dispatch slot of every engine is executed from generated states (boundary-biased) and inside generated programs with scheduler-chosen interrupts; each executed transition must match RefZ80 on registers, documented flags, memory writes, port events and T-states. The first scenarios of every batch execute every entry of every 8-bit flag/result table on every engine (17 M executions per quick run); 16-bit and memory-addressed forms are sampled with boundary bias (operand pairs aimed at carry/overflow boundaries); clock-dependent instructions (HALT, LD A,I/R, EI) are swept around frame boundaries in frames up to 2^40 T-states; run(start, stop, interrupts) is compared with a reference run loop. Sampling of operand spaces, not proof; no fault dimension exists for a single instruction (see DESIGN.md 5/C05).',
    note='Trusts RefZ80 (written from the Zilog manual, independent of SkoolKit tables). Bits 3/5 of F, MEMPTR, documented-undefined flags, the IM result of ED4E/ED6E and the vector-read/push order on interrupt overlap are not judged.',
    ref='DESIGN.md section 5, C05'),
  'C06': dict(
    technique='deterministic simulation: lock-step replicas (Simulator, fast-path Simulator, CSimulator, CMIOSimulator, CCMIOSimulator) on one seeded world, "replicas never diverge" after every event',
-   text='Seeded exploration of programs, start states, port values, tracer configurations and interrupt landing points; all implementations are stepped in lock step on the same world and must stay bit-identical (registers incl. R/T/IFF/IM/HALT, MEMPTR within the contended pair, RAM, port-access sequence). Also: batch run(start, stop, interrupts) on all replicas, trace.py with and without --python, and an entry-by-entry comparison of every 8-bit table between the Python and C engines.',
+   text='Seeded exploration of programs, start states, port values, tracer configurations and interrupt landing points; all implementations are stepped in lock step on the same world and must stay bit-identical (registers incl. R/T/IFF/IM/HALT, MEMPTR within the contended pair, RAM, port-access sequence). Also: batch run(start, stop, interrupts) on all replicas, trace.py with and without --python, an entry-by-entry comparison of every 8-bit table between the Python and C engines, clock sweeps and frame sweeps (every template at the edges of the contended window) as replica comparisons.',
    note='Replicas are reset in place between scenarios; C modules are rebuilt from c/csimulator.c for every run. One known finding (128K without a tracer) is attributed counterfactually.',
    ref='DESIGN.md section 5, C06'),
  'C08': dict(
    technique='deterministic simulation: safety invariants monitored after every event of lock-step runs + pager histories against a reference paging model',
-   text='Seeded exploration: ROM digests, register/cell ranges, clock monotonicity and the 128K mapping (reference pager driven by the replica\'s own OUT log) are checked after every event of runs that aim stores and paging writes at the boundaries. Pager histories (random, up to 30 operations with snapshot restarts; and every length-2 history of values, exhaustively in the thorough tier) run on each of the 7 copies of the paging logic x 4 engines against a reference pager.',
+   text='Seeded exploration: ROM digests, register/cell ranges, clock monotonicity and the 128K mapping (reference pager driven by the replica\'s own OUT log) are checked after every event of runs that aim stores and paging writes at the boundaries. Pager histories (random, up to 30 operations with snapshot restarts; and every length-2 history of values, exhaustively in the thorough tier) run on each of the 7 copies of the paging logic x 4 engines against a reference pager; boundary-value range sweeps of every dispatch slot; tap2sna --press scenarios (the latch travelling between the load and keypress tracers).',
    note='C-side bank pointers are observed through executed loads and the Python-visible Memory object, not private fields.',
    ref='DESIGN.md section 5, C08'),
  'C17': dict(
@@ -51,7 +51,7 @@ CHECKS = {
    ref='DESIGN.md section 5, C12'),
  'C13': dict(
    technique='deterministic simulation: one tape loaded under a lattice of clock-jump/engine configurations (accelerators, DEC-A, fast load, pause, cmio, C/Python, seeded accelerator-set order); literal execution is the reference',
-   text='Seeded exploration of tapes (bin2tap tapes; headerless TZX/PZX turbo blocks loaded by custom loaders built from the code signatures of 39 named accelerators) x configurations: strict group must reproduce the literal execution bit for bit (RAM, registers incl. R and absolute T, hardware state), weak group the loaded bytes, PC and SP. Landing scenarios place a tape edge exactly on (or 1 T beside) an instant at which the loader samples EAR or an accelerator fast-forward ends, found by a probe execution through the LoadTracer._read_port seam.',
+   text='Seeded exploration of tapes (bin2tap tapes; headerless TZX/PZX turbo blocks loaded by custom loaders built from the code signatures of 39 named accelerators) x configurations: strict group must reproduce the literal execution bit for bit (RAM, registers incl. R and absolute T, hardware state), weak group the loaded bytes, PC and SP. Landing scenarios place a tape edge exactly on (or 1 T beside) an instant at which the loader samples EAR or an accelerator fast-forward ends, found by a probe execution through the LoadTracer._read_port seam; further tape shapes: a second loader copied over the first between blocks, interrupt-enabled loaders arriving late at a block, pilotless decoy blocks, pulses longer than the sampling time-out.',
    note='Final state captured at simulator level by wrapping tap2sna.get_state; MEMPTR not compared; scenarios whose reference load fails are discarded and counted; accelerators outside the ROM-like family (14 of 53) are not reached by the custom loaders.',
    ref='DESIGN.md section 5, C13'),
  'C20': dict(
